@@ -289,6 +289,37 @@ fn gen_messages(ctx: &Ctx, rep: &mut Report, r: &mut Rng) {
     }
 }
 
+/// generator 11: every text field of every layout (incl. the long safety texts) filled with the
+/// text shapes of C13 - padding mixes, one character on padding, dictionary words cut off after
+/// every character: code that looks into a text (classification, trimming) must not panic on it
+fn gen_text_shapes(ctx: &Ctx, rep: &mut Report, r: &mut Rng) {
+    let mut idx = 0u64;
+    for b in gen::BRANCHES.iter().chain(gen::LONG_TEXT_BRANCHES.iter()) {
+        let fs = super::c04::fields_of(b, r, Some(13));
+        for f in &fs {
+            if !ctx.mine(idx) {
+                idx += 1;
+                continue;
+            }
+            idx += 1;
+            let k = (f.width / 6) as usize;
+            if k == 0 || k > 200 {
+                continue;
+            }
+            for (name, chars) in super::c13::shapes(k, r) {
+                if !(name == "dictionary" || name == "padding-mix" || name == "single-on-padding" || name.starts_with("all-")) {
+                    continue;
+                }
+                let mut bits = gen::gen_message(b, r);
+                for (i, c) in chars.iter().enumerate() {
+                    bits.put(f.start as usize + 6 * i, 6, *c as u64);
+                }
+                msg_call(rep, "text-shape", &bits.to_bytes());
+            }
+        }
+    }
+}
+
 /// generator 6: unarmor directly
 fn gen_unarmor(ctx: &Ctx, rep: &mut Report, r: &mut Rng) {
     let mut call = |rep: &mut Report, s: &[u8], fill: usize, gen: &str| {
@@ -559,6 +590,7 @@ pub fn run(ctx: &Ctx, rep: &mut Report) {
     gen_corpus_mutation(ctx, rep, &mut r);
     gen_raw(ctx, rep, &mut r);
     gen_messages(ctx, rep, &mut r);
+    gen_text_shapes(ctx, rep, &mut r);
     gen_unarmor(ctx, rep, &mut r);
     gen_full_sentences(ctx, rep, &mut r);
     rep.sample(3, || {
